@@ -14,15 +14,23 @@
    they are instantiated with the regenerated tables (what the code does) and
    with the documented ones (the oracle applied to what robsd-config did).
 
-   Three parts of the property do NOT hold of the unchanged code; each keeps
+   Parts of the property that do NOT hold, or did not hold, of the code; each keeps
    its full statement here, a witness (_refuted) and the part that does hold
    (_partial):
-     D6  rdomain hands out 11 twice after the wrap            C08_rdomain_cycle_*
-     D7  canvas accepts the undocumented keyword robsddir     C08_tables_match_docs_canvas_*, C08_canvas_accepts_undocumented_robsddir
-     new a rejection caused by a failing substitution in a directory value or in a
-         test's env option prints no file name                C08_reject_has_diagnostic_* *)
+     D7  canvas accepts the undocumented keyword robsddir     C08_tables_match_docs_canvas_*, C08_canvas_accepts_undocumented_robsddir,
+                                                              C08_accept_iff_documented_canvas_partial
+   HISTORICAL PINS - repaired in /repo (c0e596d, 78f946e, 35cfab1); the theorems named _refuted below are conditioned on a
+   translator switch that is now true, hence vacuous of the present source and kept only so that a return of the
+   defect is recognised; they are not results:
+     D6  rdomain hands out 11 twice after the wrap            C08_rdomain_cycle_refuted, C08_rdomain_cycle (dichotomy)
+     D16 a rejection caused by a failing substitution in a directory value or in a
+         test's env option prints no file name                C08_reject_has_diagnostic_refuted
+     D18 an accepted configuration whose robsddir depends on ${builddir} made every reference to ${builddir}
+         recurse without bound (stack exhaustion)              C08_accepted_no_abort_refuted / _partial
+                                                              (findings/D18_builddir_reentry.md); now C08_accepted_no_abort_holds_now *)
 From Robsd Require Import Conf.ConfDefs Conf.ConfSpec Conf.DocSpec Conf.ConfTie Conf.ConfSound Conf.ConfComplete
-  Conf.ConfDiag Conf.ConfReject Conf.ConfRdomain Conf.ConfValue Conf.ConfInst Conf.ConfPrim Conf.ConfTrack Conf.ConfProofs.
+  Conf.ConfDiag Conf.ConfReject Conf.ConfRdomain Conf.ConfValue Conf.ConfInst Conf.ConfPrim Conf.ConfTrack Conf.ConfProofs
+  Conf.ConfRows Conf.ConfDocIff Conf.ConfAbort Conf.ConfAbortInst Conf.ConfValueAll Conf.ConfLexLaws.
 From RobsdGen Require Import Gen_Conf.
 From Coq Require Import String.
 Local Open Scope N_scope.
@@ -45,6 +53,32 @@ Theorem C08_oracle_reflects_documented_grammar : forall E m text,
   spec_accepts E m text = true <-> exists c, text_conforms E (doc_tables m) text c.
 Proof. exact accept_iff_conforms_doc. Qed.
 Print Assumptions C08_oracle_reflects_documented_grammar.
+
+(* THE HEADLINE CLAUSE: for the four modes whose table matches its manual page, the implementation accepts a
+   text exactly when the text conforms to the DOCUMENTED grammar, and then defines exactly the dictionary the
+   documented reading defines.  The regenerated table and the documented one have the same rows in another
+   order; no name can match two rows ([uniq_match], computed; patterns included), so "first matching row" does
+   not see the order (Conf/ConfRows.v, Conf/ConfDocIff.v). *)
+Theorem C08_accept_iff_documented : forall E m text c, m <> CANVAS ->
+  (config_parse E (tables_of m) text = Accepted c <-> text_conforms E (doc_tables m) text c).
+Proof. exact accept_iff_documented. Qed.
+Print Assumptions C08_accept_iff_documented.
+
+(* full statement for canvas: the same with m = CANVAS.  Refuted by C08_canvas_accepts_undocumented_robsddir (D7).
+   What holds, exactly: canvas accepts the documented grammar extended by ONE row, a settable required
+   directory robsddir - nothing else differs. *)
+Theorem C08_accept_iff_documented_canvas_partial : forall E text c,
+  t_grammar doc_tables_canvas_as_built = canvas_extra_row :: doc_table CANVAS
+  /\ (config_parse E (tables_of CANVAS) text = Accepted c <-> text_conforms E doc_tables_canvas_as_built text c).
+Proof. exact (fun E text c => conj eq_refl (accept_iff_documented_canvas_as_built E text c)). Qed.
+Print Assumptions C08_accept_iff_documented_canvas_partial.
+
+(* the order of the rows of a table never matters once no name matches two rows *)
+Theorem C08_row_order_irrelevant : forall G G' n kw,
+  (forall g, In g G <-> In g G') -> uniq_match G = true ->
+  grammar_for_interp G n = grammar_for_interp G' n /\ grammar_for_keyword G kw = grammar_for_keyword G' kw.
+Proof. exact (fun G G' n kw Hs Hu => conj (gfi_same_rows G G' n Hs Hu) (gfk_same_rows G G' kw Hs Hu)). Qed.
+Print Assumptions C08_row_order_irrelevant.
 
 (* ------------------------------------------------------------------ tables = documentation *)
 (* keywords, types, parsers, REQ/REP/PAT/EARLY, defaults of every row, up to the order of the rows *)
@@ -85,7 +119,9 @@ Print Assumptions C08_constants_match_docs.
 
 (* ------------------------------------------------------------------ rejection *)
 (* full statement: [reject_names_file_statement] - every rejection leaves a
-   diagnostic naming the file.  Refuted: *)
+   diagnostic naming the file.  HISTORICAL PIN (D16, repaired in /repo 78f946e): the hypothesis
+   [t_interp_path .. = false] is false of the present source, so this says nothing about it; the
+   statement that holds now is C08_reject_names_file_holds_now below. *)
 Theorem C08_reject_has_diagnostic_refuted :
   t_interp_path (tables_of ROBSD) = false ->
   (exists c, config_parse wit_env (tables_of ROBSD) wit_reject_text = Rejected c
@@ -117,6 +153,28 @@ Print Assumptions C08_reject_has_diagnostic_if_fixed.
 Theorem C08_lexer_total : forall T text, lex T text <> LexFuel.
 Proof. exact lex_fuel. Qed.
 Print Assumptions C08_lexer_total.
+
+(* what the lexer hands to the grammar, stated without its loops ([text_conforms] starts from the lexer's tokens):
+   an integer literal is its decimal value when that fits an int and "integer too big" exactly otherwise; a
+   comment runs to the end of the line (or a NUL) and leaves nothing; a string is the bytes up to the next
+   double quote, unterminated when the input or a NUL comes first *)
+Theorem C08_lexer_laws :
+  (forall ds, all_digits ds ->
+     ((digits_val ds 0 <= i32_max)%Z -> lex_int ds 0 false = (digits_val ds 0, false))
+     /\ ((i32_max < digits_val ds 0)%Z -> snd (lex_int ds 0 false) = true))
+  /\ (forall body rest lno, Forall (fun c => c <> 10 /\ c <> 0) body ->
+        skip_comment lno (body ++ 10 :: rest) = ((lno + 1)%Z, rest)
+        /\ skip_comment lno (body ++ 0 :: rest) = (lno, rest) /\ skip_comment lno body = (lno, []))
+  /\ (forall body rest lno acc, Forall (fun c => c <> 34 /\ c <> 0) body ->
+        scan_string lno (body ++ 34 :: rest) acc
+        = Some (rev acc ++ body, (lno + Z.of_nat (List.length (filter (N.eqb 10) body)))%Z, rest)
+        /\ scan_string lno body acc = None /\ scan_string lno (body ++ 0 :: rest) acc = None).
+Proof.
+  exact (conj lex_int_literal
+          (conj (fun body rest lno H => skip_comment_spec body rest lno H)
+                (fun body rest lno acc H => scan_string_spec body rest lno acc H))).
+Qed.
+Print Assumptions C08_lexer_laws.
 
 (* ------------------------------------------------------------------ values *)
 Theorem C08_value_exact : forall E T,
@@ -167,6 +225,119 @@ Theorem C08_entry_writes_only_its_names : forall E T n0, ~ fun_name T n0 -> fora
 Proof. exact untouched_apply_entry. Qed.
 Print Assumptions C08_entry_writes_only_its_names.
 
+(* the same for EVERY settable plain keyword: the demand "no production writes the name" is made of the rows of
+   the mode's own table, which admits regress-user, regress-timeout (time-out converted to seconds by
+   [kw_value]/[own_value]) and robsddir *)
+Theorem C08_value_of_accepted_all : forall E T kw, plain_free_in T kw = true -> forall es c,
+  run_entries E T (cfg_init T) es = Some c ->
+  find_var (c_vars c) kw = kw_value E T kw es
+  /\ (forall v, kw_value E T kw es = Some v -> v <> VInvalid -> lookup1 E T false c kw = (c, Some (render v))).
+Proof. exact plain_value_accepted. Qed.
+Print Assumptions C08_value_of_accepted_all.
+
+(* ... which leaves out exactly one keyword of one mode: robsddir in canvas, which canvas-dir defines too (D7) *)
+Theorem C08_value_of_accepted_all_covers : forall m,
+  forallb (fun g => negb (has_fn g && plain (gr_fn g)) || plain_free_in (tables_of m) (gr_kw g)
+                    || (mode_eqb m CANVAS && beq (gr_kw g) kw_robsddir))
+          (t_grammar (tables_of m)) = true.
+Proof. exact plain_keywords_all_covered. Qed.
+Print Assumptions C08_value_of_accepted_all_covers.
+
+(* PER-TEST OPTIONS APPLY ONLY TO THEIR TEST, end to end: through a whole accepted configuration the variable
+   regress-<q>-<env|parallel|quiet|root> is changed by no entry other than  regress "q" ...  - whatever options
+   other tests carry and whatever else is configured.  (targets: its documented default "regress" is
+   materialised by the first reference, so a reference - not another test's option - can define it.) *)
+Theorem C08_per_test_options_only_their_test : forall E q t es c c1,
+  In t [sfx_env; sfx_parallel; sfx_quiet; sfx_root] ->
+  Forall (fun e => forall opts, en_val e <> E_regress q opts) es ->
+  run_entries E (tables_of ROBSD_REGRESS) c es = Some c1 ->
+  find_var (c_vars c1) (regress_name q t) = find_var (c_vars c) (regress_name q t).
+Proof.
+  exact (fun E q t es c c1 Ht Hq Hr =>
+    per_test_options_frame E (tables_of ROBSD_REGRESS) q t
+      (match Ht with
+       | or_introl e => or_introl e
+       | or_intror (or_introl e) => or_intror (or_introl e)
+       | or_intror (or_intror (or_introl e)) => or_intror (or_intror (or_introl e))
+       | or_intror (or_intror (or_intror (or_introl e))) => or_intror (or_intror (or_intror (or_introl e)))
+       | or_intror (or_intror (or_intror (or_intror f))) => match f with end
+       end)
+      (proj1 (option_not_fun q t Ht)) (proj2 (option_not_fun q t Ht)) es c c1 Hq Hr).
+Qed.
+Print Assumptions C08_per_test_options_only_their_test.
+
+(* ... and positively: after an accepted configuration regress-<q>-quiet = 1, regress-<q>-root = 1,
+   regress-<q>-parallel = 0 EXACTLY when some entry  regress "q"  carries quiet / root / no-parallel; otherwise the
+   variable is undefined (so ${regress-q-parallel} falls back to the global switch, ${regress-q-quiet} has no value) *)
+Theorem C08_flag_option_value : forall E q o sfx z es c,
+  flag_sfx o = Some (sfx, z) ->
+  run_entries E (tables_of ROBSD_REGRESS) (cfg_init (tables_of ROBSD_REGRESS)) es = Some c ->
+  find_var (c_vars c) (regress_name q sfx)
+  = if existsb (has_flag (tables_of ROBSD_REGRESS) q o) es then Some (VInt z) else None.
+Proof. exact flag_option_value. Qed.
+Print Assumptions C08_flag_option_value.
+
+(* the names of the per-test variables determine the test and the option *)
+Theorem C08_option_names_injective : forall p q s t,
+  In s option_sfx -> In t option_sfx -> regress_name p s = regress_name q t -> p = q /\ s = t.
+Proof. exact option_names_injective. Qed.
+Print Assumptions C08_option_names_injective.
+
+(* "INTERPOLATES TO EXACTLY its configured value" at the level of the template: the lookup hands the rendered
+   value back to interpolate(), which expands it again, so the clause holds exactly for the values that contain no
+   '$' (a value with a reference in it is expanded further - that is the documented way of composing variables):
+   then ${kw} yields the rendering byte for byte and leaves the configuration unchanged *)
+Theorem C08_value_template_exact : forall E T c kw v,
+  (3 <= t_depth_limit T)%nat -> kw <> [] -> Forall (fun ch => ch <> RBRACE /\ ch <> 0) kw ->
+  find_var (c_vars c) kw = Some v -> v <> VInvalid -> nodollar (render v) ->
+  cfg_interp E T c (ref_of kw) = (c, IOk (cstr (render v))).
+Proof. exact interp_var_plain. Qed.
+Print Assumptions C08_value_template_exact.
+
+(* successive rdomain references are pairwise DISTINCT over every window of 245 = |11..255| references, not only
+   consecutive ones (body of config_default_rdomain as the translator finds it now) *)
+Theorem C08_rdomain_window_distinct : forall i j, (i < j)%nat -> (j < i + 245)%nat ->
+  rd_val TR i (cfg_init TR) <> rd_val TR j (cfg_init TR).
+Proof. exact (fun i j => rdomain_window_distinct i j eq_refl). Qed.
+Print Assumptions C08_rdomain_window_distinct.
+
+(* ------------------------------------------------------------------ no trap on an accepted configuration *)
+(* an accepted configuration carries no C-level trap (assert, __builtin_trap, unbounded recursion), every variable
+   config_find_or_create_list may be asked for holds a list, and no later -v definition or template makes
+   robsd-config trap either: all ten places where the model flags a trap are dead for every input (Conf/ConfAbort.v) *)
+Theorem C08_accepted_no_abort_holds_now : forall E m text c,
+  config_parse E (tables_of m) text = Accepted c ->
+  c_abort c = false /\ lists_ok (c_vars c)
+  /\ (forall vars stdin, r_abort (robsd_config E (tables_of m) text vars stdin) = false).
+Proof.
+  exact (fun E m text c H =>
+    let G := match m return t_builddir_guard (tables_of m) = true with
+             | ROBSD => eq_refl | ROBSD_CROSS => eq_refl | ROBSD_PORTS => eq_refl | ROBSD_REGRESS => eq_refl | CANVAS => eq_refl end in
+    let BD := guarded_not_reentered E (tables_of m) (trap_free_gen m) G in
+    conj (proj1 (accepted_no_abort_partial E m text c BD H))
+      (conj (proj2 (accepted_no_abort_partial E m text c BD H))
+         (fun vars stdin => config_no_abort_partial E m text vars stdin BD))).
+Qed.
+Print Assumptions C08_accepted_no_abort_holds_now.
+
+(* HISTORICAL PIN (D18, repaired in /repo 35cfab1): nine of the ten places were never reachable; the tenth -
+   ${builddir} needed while ${builddir} is being computed - was live with the shipped body of
+   config_default_build_dir ([t_builddir_guard .. = false], which the source no longer satisfies): *)
+Theorem C08_accepted_no_abort_refuted :
+  t_builddir_guard (tables_of ROBSD) = false ->
+  (exists c, config_parse wit_env_all (tables_of ROBSD) wit_reentry_text = Accepted c /\ c_abort c = false)
+  /\ r_abort (robsd_config wit_env_all (tables_of ROBSD) wit_reentry_text [] wit_reentry_stdin) = true.
+Proof. exact (fun Hf => conj (proj1 (builddir_reentry_witness Hf)) (proj1 (proj2 (proj2 (builddir_reentry_witness Hf))))). Qed.
+Print Assumptions C08_accepted_no_abort_refuted.
+
+(* HISTORICAL (true of both bodies): exact guard for the shipped one - no computation of ${builddir} asks for
+   ${builddir} again.  Then an accepted dictionary carries no trap and every list variable holds a list *)
+Theorem C08_accepted_no_abort_partial : forall E m text c,
+  builddir_not_reentered E (tables_of m) -> config_parse E (tables_of m) text = Accepted c ->
+  c_abort c = false /\ lists_ok (c_vars c).
+Proof. exact accepted_no_abort_partial. Qed.
+Print Assumptions C08_accepted_no_abort_partial.
+
 (* the documented defaults, computed by the lookup on the regenerated tables *)
 Theorem C08_documented_defaults :
   default_of ROBSD "stat-interval" = Some [49; 48] /\ default_of ROBSD "keep" = Some [48]
@@ -188,8 +359,9 @@ Print Assumptions C08_documented_defaults.
 
 (* ------------------------------------------------------------------ rdomain *)
 (* full statement: [rdomain_cycle_statement] - the k-th reference yields
-   11 + k mod 245 and consecutive references differ.  D6, with the body
-   config_default_rdomain has in the source now: *)
+   11 + k mod 245 and consecutive references differ.  HISTORICAL PIN (D6, repaired in /repo
+   c0e596d): conditioned on the shipped body [t_rdomain_fixed TR = false], which the source no
+   longer has; the statement that holds now is C08_rdomain_cycle_holds_now below. *)
 Theorem C08_rdomain_cycle_refuted :
   t_rdomain_fixed TR = false ->
   (rd_val TR 244 (cfg_init TR) = 255%Z /\ rd_val TR 245 (cfg_init TR) = 11%Z /\ rd_val TR 246 (cfg_init TR) = 11%Z
@@ -204,8 +376,8 @@ Theorem C08_rdomain_cycle_partial : forall k,
 Proof. exact rdomain_partial. Qed.
 Print Assumptions C08_rdomain_cycle_partial.
 
-(* the statement is false for the shipped body and a theorem for the repaired
-   one (findings/D6_rdomain.diff); the translator tells which one the source has *)
+(* HISTORICAL PIN: the statement is false for the shipped body and a theorem for the repaired
+   one (findings/D6_rdomain.diff); the translator tells which one the source has (now: the repaired one) *)
 Theorem C08_rdomain_cycle : 
   (t_rdomain_fixed TR = false /\ ~ rdomain_cycle_statement) \/ (t_rdomain_fixed TR = true /\ rdomain_cycle_statement).
 Proof. exact rdomain_cycle_dichotomy. Qed.
